@@ -123,6 +123,11 @@ def jsonable(x):
     return repr(x)
 
 
+# Real seconds one run may take in a batch worker (None: unlimited).  A run
+# cut by it is counted (counter harness:aborted_wall) and judged by nobody.
+WALL_LIMIT = None
+
+
 def execute(family, cfg, chooser, *, max_steps=None, real_timeout=120.0):
   """Runs one simulation of `family` with explicit cfg and chooser."""
   from simkit import sched
@@ -144,6 +149,7 @@ def execute(family, cfg, chooser, *, max_steps=None, real_timeout=120.0):
   # 'line' (at every line of them)
   fine = simcfg.get('fine') or False
   s.fine = fine
+  s.wall_limit = WALL_LIMIT
   # the digest identifies (configuration, schedule), not the schedule alone
   s.log('cfg', hashlib.blake2b(
       json.dumps(cfg, sort_keys=True, default=repr).encode(),
@@ -162,6 +168,10 @@ def execute(family, cfg, chooser, *, max_steps=None, real_timeout=120.0):
   out['fine_yields'] = s.fine_yields
   violations = []
   failure = out.get('failure')
+  if failure is not None and failure.kind == 'wall':
+    out['counters']['harness:aborted_wall'] = 1
+    out['violations'] = []
+    return out
   try:
     violations = family.check(cfg, out) or []
   except Exception as e:  # pylint: disable=broad-exception-caught
